@@ -113,7 +113,7 @@ struct Fd
 struct Ev
 {
   uint64_t at, seq;
-  int kind; // 0 seg-arrive(conn,side) 1 connect-done(fd,gen) 2 udp-arrive(idx) 3 rst-arrive(conn,side)
+  int kind; // 0 seg-arrive(conn,side) 1 connect-done(fd,gen) 2 udp-arrive(idx) 3 rst-arrive(conn,side) 4 writable-again(fd,gen)
   int a, b;
   bool operator<(const Ev& o) const { return at != o.at ? at > o.at : seq > o.seq; }
 };
@@ -417,6 +417,17 @@ void net_fire()
     case 1: connect_done(e.a, (uint32_t)e.b); break;
     case 2: udp_arrive(e.a); break;
     case 3: rst_arrive(*conns[e.a], e.b); break;
+    case 4:
+      if (isfd(e.a) && fdgen[e.a - FDBASE] == (uint32_t)e.b)
+      {
+        Fd* f = F(e.a);
+        if (f->k == K_TCP && f->conn >= 0 && tcp_writable(*conns[f->conn], f->side))
+        {
+          conns[f->conn]->nospace[f->side] = false;
+          activity(e.a, EPOLLOUT);
+        }
+      }
+      break;
     }
   }
 }
@@ -463,8 +474,12 @@ ssize_t tcp_send(int fd, Fd* f, const void* b, size_t n, int flags)
     size_t k = std::min(room, n - done);
     if (nb && k > 1 && ncfg.short_write_permille && raw_draw(sim::F, 1000) >= 1000 - (uint64_t)ncfg.short_write_permille)
     {
+      // the socket buffer was momentarily smaller (memory pressure): a partial write, and - as the kernel does after
+      // any out-of-space condition - a writability edge follows
       k = 1 + raw_draw(sim::F, k - 1);
       count("net.short_write_injected", 1);
+      c.nospace[s] = true;
+      push_ev(g_now + lat(), 4, fd, (int)fdgen[fd - FDBASE]);
     }
     queue_bytes(c, s, (const char*)b + done, k);
     done += k;
